@@ -222,8 +222,14 @@ func edgeExcludes(r an.Rel, fromInput func(ssa.Value) bool, depth int) (ex map[r
 		if specialsAgnostic[an.QName(f)] {
 			return
 		}
-		if f.Blocks != nil && f.Pkg != nil && strings.HasPrefix(f.Pkg.Pkg.Path(), an.ModPath) && depth < 2 && !r.Truth {
-			return helperExcludes(f, depth)
+		if f.Blocks != nil && f.Pkg != nil && strings.HasPrefix(f.Pkg.Pkg.Path(), an.ModPath) && depth < 2 {
+			// a byte-wise predicate (loop over the input comparing each byte with constants)
+			if bex, ok := bytePredicate(f, r.Truth); ok {
+				return bex, nil
+			}
+			if !r.Truth {
+				return helperExcludes(f, depth)
+			}
 		}
 		return ex, []string{"call to " + an.FnName(f)}
 	}
